@@ -13,16 +13,16 @@ import vp
 OVERLAY = os.path.join(vp.VERIF, "harness", "overlay", "core_consensus_qbft", "zz_verif_leader_test.go")
 
 HEADER = """From Coq Require Import List NArith Arith Bool.
-From Charon Require Import Common.Quorum Qbft.Model Qbft.Monitor Qbft.Corr.
+From Charon Require Import Common.Quorum Qbft.Model Qbft.Monitor Qbft.Net Qbft.Corr.
 Import ListNotations.
 Local Open Scope nat_scope.
 """
 
 
 def case_term(h):
-    return "(mkcase %d %d %d %d [%s] [\n  %s])" % (
+    return "(mkcase %d %d %d %d [%s] %s [\n  %s])" % (
         h["id"], h["nodes"], h["fifo"], h["off"], "; ".join(str(x) for x in (h.get("expect") or [])),
-        ";\n  ".join(h["trace"]))
+        "true" if h["kind"].startswith("cluster") else "false", ";\n  ".join(h["trace"]))
 
 
 def cases_v(hs):
@@ -33,12 +33,14 @@ Definition c03_hits := Eval vm_compute in all_c03 cases.
 Definition c04u_hits := Eval vm_compute in all_c04u cases.
 Definition c04d_hits := Eval vm_compute in all_c04d cases.
 Definition m3_hits := Eval vm_compute in all_mon3 cases.
+Definition net_hits := Eval vm_compute in all_net cases.
 Print rejects.
 Print c02_hits.
 Print c03_hits.
 Print c04u_hits.
 Print c04d_hits.
 Print m3_hits.
+Print net_hits.
 """
 
 
@@ -75,7 +77,7 @@ def input_fingerprint():
 def run_batch(R, n_hist, seed, tables):
     """One harness invocation + evaluation.  Returns dict: ok(bool: pipeline ran), hs(list of histories), byid, rejects, c02, c03, c04u, c04d, qf_bad,
     leader_bad, broke(list of (name, detail))."""
-    res = {"broke": [], "hs": [], "byid": {}, "rejects": [], "c02": [], "c03": [], "c04u": [], "c04d": [], "m3": [],
+    res = {"broke": [], "hs": [], "byid": {}, "rejects": [], "c02": [], "c03": [], "c04u": [], "c04d": [], "m3": [], "net": [],
            "qf_bad": [], "leader_bad": [], "leader_rows": 0, "cached": False}
     replay = os.environ.get("VERIF_REPLAY")
     if replay:
@@ -171,6 +173,7 @@ def run_batch(R, n_hist, seed, tables):
         res["c04u"] += nums(vp.parse_marked(out, "c04u_hits"))
         res["c04d"] += nums(vp.parse_marked(out, "c04d_hits"))
         res["m3"] += nums(vp.parse_marked(out, "m3_hits"))
+        res["net"] += nums(vp.parse_marked(out, "net_hits"))
     if cache_key and not res["broke"]:
         try:
             dump = dict(res)
@@ -189,7 +192,7 @@ def run(R, n_hist):
     """Runs the harness in batches of at most BATCH histories (bounded memory), batch k > 0 with seed
     seed*1000+k; history ids are made global (batch*BATCH + local id).  Full traces are kept only for
     histories some check points at."""
-    total = {"broke": [], "hs": [], "byid": {}, "rejects": [], "c02": [], "c03": [], "c04u": [], "c04d": [], "m3": [],
+    total = {"broke": [], "hs": [], "byid": {}, "rejects": [], "c02": [], "c03": [], "c04u": [], "c04d": [], "m3": [], "net": [],
              "qf_bad": [], "leader_bad": [], "leader_rows": 0}
     k, left = 0, n_hist
     while left > 0:
@@ -197,7 +200,7 @@ def run(R, n_hist):
         res = run_batch(R, nb, R.seed if k == 0 else R.seed * 1000 + k, k == 0)
         off = k * BATCH
         total["broke"] += res["broke"]
-        for key in ("rejects", "c03", "c04u", "c04d", "m3"):
+        for key in ("rejects", "c03", "c04u", "c04d", "m3", "net"):
             total[key] += [[x[0] + off] + list(x[1:]) for x in res[key]]
         total["c02"] += [x + off for x in res["c02"]]
         if k == 0:
@@ -205,7 +208,7 @@ def run(R, n_hist):
                 total[key] = res.get(key, total[key])
             if res.get("skipped"):
                 total["skipped"] = res["skipped"]
-        pointed = {x[0] for key in ("rejects", "c03", "c04u", "c04d", "m3") for x in res[key]} | set(res["c02"])
+        pointed = {x[0] for key in ("rejects", "c03", "c04u", "c04d", "m3", "net") for x in res[key]} | set(res["c02"])
         for h in res["hs"]:
             h["nlabels"] = len(h["trace"])
             h["digest"] = vp.digest(h["events"])
@@ -282,6 +285,13 @@ def report_common(R, res, which):
         lab = h["trace"][gi] if gi is not None else "?"
         R.broke("correspondence:Qbft model rejects observed label %d of process %d in history %d (%s)" % (k, pid, cid, h["kind"]),
                 json.dumps({"label": lab[:1500], "replay": replay_obj(h, gi)})[:6000])
+    rej_ids = {x[0] for x in res["rejects"]}
+    for cid, gi in res.get("net", []):
+        if cid in rej_ids or cid in hit:
+            continue
+        h = res["byid"][cid]
+        R.broke("correspondence:Qbft/Net.v refuses global step %d of honest cluster history %d (%s): a delivered part was never broadcast" % (gi, cid, h["kind"]),
+                json.dumps({"step": (h["trace"][gi] if h.get("trace") else "?")[:1500], "replay": replay_obj(h, gi)})[:6000])
     if res["qf_bad"]:
         R.violation("quorum-table", "Quorum()/Faulty() differ from ceil(2n/3)/floor((n-1)/3) at n in %s (ids >= 1000: wrapper definition)" % res["qf_bad"][:10],
                     {"n": res["qf_bad"], "how": "qbft.Definition{Nodes:n}.Quorum()/.Faulty() compared with Common/Quorum.v"})
